@@ -80,7 +80,11 @@ impl Worker {
 
                     println!("Worker {} got a job; executing.", id);
 
-                    job();
+                    // a job which panics must not take the worker thread down, the pool would lose this worker forever
+                    let boxed_run = std::panic::catch_unwind(std::panic::AssertUnwindSafe(job));
+                    if boxed_run.is_err() {
+                        eprintln!("Worker {} -> job panicked, worker continues with the next job", id);
+                    }
                     #[cfg(rws_verif)]
                     crate::rws_verif_hooks::pool_event(crate::rws_verif_hooks::POOL_EVENT_FINISHED, id);
                 }
